@@ -15,6 +15,7 @@ mod c19;
 mod c19_consts;
 mod mapper;
 mod physmem;
+mod softmmu;
 
 use gen::Rng;
 use out::Out;
